@@ -1,10 +1,11 @@
 //! C19 - hand containers store and return exactly the words put into them.
 //!
 //! E2 (explicit-state graph per size n = 2..7, the real setters as the transition function):
-//!   word alphabet W = {0, ace of spades, deuce of clubs with the pair flag, 0xFFFFFFFF}; states = all 4^n
+//!   word alphabet W = {0, ace of spades, deuce of clubs with the pair flag, 0xFFFFFFFF, king of hearts} (thorough:
+//!   + the word 1); states = all |W|^n
 //!   containers, every one also an initial state built by every public constructor form (From<[u32; N]>, new,
 //!   From<&[u32; 2]>, Default + setters, Three(pub ..), Six::from_1_and_2_and_3, Seven::new(Two, Five));
-//!   actions = every setter x every w in W (4n actions). The invariant "real container == shadow array" is read
+//!   actions = every setter x every w in W (|W| n actions). The invariant "real container == shadow array" is read
 //!   through to_arr, first()..seventh(), iter(), == with a freshly constructed container and every other
 //!   constructor form; each edge must change exactly the named slot. The graph is closed under the actions, so the
 //!   invariant holds for EVERY setter history of any length over W, and states reached by setters are compared with
@@ -23,8 +24,12 @@ use ckc_rs::cards::six::Six;
 use ckc_rs::cards::Permutator;
 use std::time::Instant;
 
-fn alphabet() -> [u32; 4] {
-    [0, Card::new(12, 3).word(), Card::new(0, 0).word() | (1 << 29), u32::MAX]
+fn alphabet(thorough: bool) -> Vec<u32> {
+    let mut v = vec![0, Card::new(12, 3).word(), Card::new(0, 0).word() | (1 << 29), u32::MAX, Card::new(11, 2).word()];
+    if thorough {
+        v.push(1);
+    }
+    v
 }
 
 #[derive(Clone, Debug, PartialEq, Eq, Hash)]
@@ -157,15 +162,16 @@ pub fn judge(case: &Case) -> Verdict {
 }
 
 pub fn run(ctx: &Ctx, rep: &mut Report) {
-    let wal = alphabet();
+    let wal = alphabet(ctx.tier.thorough());
+    let k = wal.len() as u64;
     // E2
     for n in 2..=7usize {
         let t0 = Instant::now();
-        let total = 4u64.pow(n as u32);
+        let total = k.pow(n as u32);
         let mut inits = Vec::new();
         let mut idx = vec![0usize; n];
         for t in 0..total {
-            tuple_decode(t, 4, &mut idx);
+            tuple_decode(t, k, &mut idx);
             let w: Vec<u32> = idx.iter().map(|i| wal[*i]).collect();
             inits.push((St { real: AnyHand::from_words(&w), shadow: w.clone() }, format!("From<[u32; {}]>({:x?})", n, w)));
         }
@@ -174,8 +180,8 @@ pub fn run(ctx: &Ctx, rep: &mut Report) {
         inits.push((St { real: dflt, shadow: vec![0; n] }, "Default".into()));
         let mut actions = Vec::new();
         for slot in 0..n {
-            for w in wal {
-                actions.push((slot, w));
+            for w in &wal {
+                actions.push((slot, *w));
             }
         }
         let label = |a: &(usize, u32)| format!("set_{}({:#x})", AnyHand::SLOT_NAMES[a.0], a.1);
@@ -213,10 +219,10 @@ pub fn run(ctx: &Ctx, rep: &mut Report) {
                 None => acc.violate(Violation { class: format!("{}:unreplayed", AnyHand::size_name(n)), case, expected: "container == array model".into(), observed: why.clone(), profile: profile_name().into(), trace: trace.clone() }),
             }
         } else {
-            rep.guard(&format!("n={}: closed graph of exactly 4^{} states, all {} setter edges executed from each", n, n, 4 * n), ex.states == total && ex.transitions == total * 4 * n as u64, format!("{} states {} transitions", ex.states, ex.transitions));
+            rep.guard(&format!("n={}: closed graph of exactly {}^{} states, all {} setter edges executed from each", n, k, n, k * n as u64), ex.states == total && ex.transitions == total * k * n as u64, format!("{} states {} transitions", ex.states, ex.transitions));
             rep.guard(&format!("n={}: every setter-reached state coincides with a constructed one", n), ex.reconverged > 0, format!("{}", ex.reconverged));
         }
-        rep.add_space(&format!("E2: size {}: 4^{} states x {} setter actions, every constructor form", n, n, 4 * n), &acc, t0, "closed graph: every setter history of any length over W");
+        rep.add_space(&format!("E2: size {}: {}^{} states x {} setter actions, every constructor form", n, k, n, k * n as u64), &acc, t0, "closed graph: every setter history of any length over W");
     }
     // E1: setters x word families
     {
@@ -305,6 +311,6 @@ pub fn run(ctx: &Ctx, rep: &mut Report) {
     }
     rep.sample(sample_json("history", "Seven::default(); set_seventh(0xffffffff); set_first(A♠)", &format!("{:x?}", AnyHand::default_of(7).set(6, u32::MAX).set(0, Card::new(12, 3).word()).to_vec())));
     rep.rule = "graph states (containers over W) and setter edges; distinct (setter, word, base) triples; distinct index tuples - all non-trivial (each is a distinct write or read pattern)".into();
-    rep.bound = "every setter history of ANY length over a 4-word alphabet (closed graphs, n = 2..7); one free word per setter; every index tuple for five-slot selection".into();
+    rep.bound = "every setter history of ANY length over a 5-word (thorough: 6-word) alphabet (closed graphs, n = 2..7); one free word per setter; every index tuple for five-slot selection".into();
     rep.assume("the state key is the complete observable content (to_arr), exact because the containers are plain Copy arrays with derived Eq");
 }
